@@ -995,10 +995,19 @@ def gen_lines(gc, rng, n):
         c = gc.cols[rng.randrange(len(gc.cols))]
         hs = 2.0 ** math.floor(math.log2(gc.side[gc.idx[id(c)]] / 16.0))
         return (math.floor(float(c.centre[0]) / hs) * hs + rng.choice([0, hs / 2]), math.floor(float(c.centre[1]) / hs) * hs + rng.choice([0, hs / 4]))
+    def through_node():
+        # a line whose midpoint is (up to one rounding) a node of the geometry: crossings exactly at a vertex
+        c = gc.cols[rng.randrange(len(gc.cols))]
+        nd = rng.choice(c.node)
+        a = inside() if rng.random() < 0.7 else rp(0.2)
+        nx, ny = float(nd.pos[0]), float(nd.pos[1])
+        return a, (2 * nx - a[0], 2 * ny - a[1])
     out = []
     for _ in range(n):
         k = rng.random()
-        if k < 0.35:
+        if k < 0.2:
+            (a, b), kind = through_node(), 'through-a-node'
+        elif k < 0.45:
             a, b, kind = inside(), inside(), 'in-in'
         elif k < 0.6:
             a, b, kind = inside(), rp(0.3), 'in-any'
